@@ -1,13 +1,14 @@
 #!/usr/bin/env python3
 """benign_eval.py <patch-dir> <prop...>: apply a behaviour-preserving patch to /repo, run the quick
 checks, revert; any non-zero exit is a FALSE ALARM to be analysed."""
-import sys, os, subprocess, json, shutil
+import fcntl, sys, os, subprocess, json, shutil
 ENV = dict(os.environ, GOFLAGS="-mod=mod", GOPROXY="off", GOSUMDB="off", GOTOOLCHAIN="local")
 def sh(cmd, cwd=None, timeout=3000):
     r = subprocess.run(cmd, cwd=cwd, shell=isinstance(cmd, str), stdout=subprocess.PIPE, stderr=subprocess.STDOUT, text=True, env=ENV, timeout=timeout)
     return r.returncode, r.stdout
 pd = os.path.abspath(sys.argv[1]); props = sys.argv[2:]
 patch = os.path.join(pd, "patch.diff")
+lockf = open("/tmp/repo.lock", "w"); fcntl.flock(lockf, fcntl.LOCK_EX)
 rc, out = sh(["git", "-C", "/repo", "status", "--porcelain"])
 if out.strip():
     print("/repo dirty"); sys.exit(2)
